@@ -34,14 +34,40 @@ var c18Pool3 = []c18Res{
 	{"A", t1, "experiment", "h1", s1, map[string]float64{"u1": 11}},
 }
 
+const t3 = "2020-03-01T00:00:00Z"
+
+// c18Pool4: three experiments on one point; the middle one has no baseline; a second hash on the same benchmark.
+var c18Pool4 = []c18Res{
+	{"B", t1, "baseline", "h2", s2, map[string]float64{"u1": 20}},
+	{"B", t1, "experiment", "h2", s2, map[string]float64{"u1": 21}},
+	{"B", t2, "experiment", "h2", s2, map[string]float64{"u1": 22}},
+	{"B", t3, "baseline", "h2", s2, map[string]float64{"u1": 30}},
+	{"B", t3, "experiment", "h2", s2, map[string]float64{"u1": 33}},
+	{"B", t2, "experiment", "h1", s1, map[string]float64{"u1": 12}},
+}
+
+// c18Pool5: two benchmarks, each measured with a baseline by the earlier experiment and without by the later one.
+var c18Pool5 = []c18Res{
+	{"A", t1, "baseline", "h1", s1, map[string]float64{"u1": 10}},
+	{"A", t1, "experiment", "h1", s1, map[string]float64{"u1": 11}},
+	{"A", t2, "experiment", "h1", s1, map[string]float64{"u1": 12}},
+	{"B", t1, "baseline", "h1", s1, map[string]float64{"u1": 20}},
+	{"B", t1, "experiment", "h1", s1, map[string]float64{"u1": 21}},
+	{"B", t2, "experiment", "h1", s1, map[string]float64{"u1": 22}},
+}
+
 func c18MapPool(i int) []c18Res {
 	switch i {
 	case 0:
 		return c18Pool[:9]
 	case 1:
 		return c18Pool2
+	case 2:
+		return c18Pool3
+	case 3:
+		return c18Pool4
 	}
-	return c18Pool3
+	return c18Pool5
 }
 
 func c18MapBody(pool []c18Res, dupe int) (canon, raw string) {
@@ -80,7 +106,7 @@ func c18MapOrders(c *mc.Check) {
 		}
 		return ""
 	}
-	f := c.Family("map-iteration-orders", "benchseries rewritten mechanically so that every range over a map asks the explorer for the order of the keys: three pools (9 results incl. a later experiment without a baseline; 10 results with multi-sample cells, a point measured twice and two hashes sharing a baseline; 4 results in which a single benchmark feeds a point measured with and, later, without a baseline) × {replace, combine}: one Builder filled in a fixed order and asked twice; deviation-bounded depth-first search over ALL orders in which the maps (tables, trials, tests per trial, residues, key sets) may be iterated, a deviation being any pick other than the first remaining key. Every execution's answers (samples, dates, hash pairs, bootstrap summaries) must equal the default order's, and match the set-semantics reference; non-trivial = executions with ≥1 deviation", replay)
+	f := c.Family("map-iteration-orders", "benchseries rewritten mechanically so that every range over a map asks the explorer for the order of the keys: five pools (9 results incl. a later experiment without a baseline; 10 results with multi-sample cells, a point measured twice and two hashes sharing a baseline; 4 results in which a single benchmark feeds a point measured with and, later, without a baseline; three experiments on one point, the middle one without a baseline; two benchmarks each measured with a baseline first and without later) × {replace, combine}: one Builder filled in a fixed order and asked twice; deviation-bounded depth-first search over ALL orders in which the maps (tables, trials, tests per trial, residues, key sets) may be iterated, a deviation being any pick other than the first remaining key. Every execution's answers (samples, dates, hash pairs, bootstrap summaries) must equal the default order's, and match the set-semantics reference; non-trivial = executions with ≥1 deviation", replay)
 	if c.Replaying() {
 		return
 	}
@@ -93,7 +119,7 @@ func c18MapOrders(c *mc.Check) {
 	f.Bounds["deviation_bound"] = bound
 	f.Bounds["shard"] = fmt.Sprintf("%d/%d", shard, nshards)
 	maxPoints := 0
-	for pi := 0; pi < 3; pi++ {
+	for pi := 0; pi < 5; pi++ {
 		pool := c18MapPool(pi)
 		for _, dupe := range []int{DUPE_REPLACE, DUPE_COMBINE} {
 			want := refSeries(pool, dupe)
